@@ -43,6 +43,7 @@ import (
 	cgfac "github.com/bronlabs/bron-crypto/pkg/proofs/cggmp21/fac"
 	"github.com/bronlabs/bron-crypto/pkg/proofs/paillier/nthroot"
 
+	"github.com/bronlabs/bron-crypto/pkg/base/serde"
 	"verif/harness/internal/drive/keys"
 	"verif/harness/internal/vh"
 )
@@ -669,4 +670,33 @@ func heavySamples(seed int64, tier string) []Sample {
 		})
 	}
 	return h.out
+}
+
+// ---- modulus-size floor ----------------------------------------------------------------------
+
+// floorStream is the CBOR encoding of a key the decoders must refuse: a Paillier key whose
+// modulus is shorter than base.IFCKeyLength (built with the legacy constructor from the stored
+// 2048-bit material; marshalling it works, decoding goes through NewPublicKey / NewSecretKey).
+type floorStream struct {
+	Type  string
+	Desc  string
+	Bytes []byte
+}
+
+func heavyFloorStreams() []floorStream {
+	var out []floorStream
+	for _, fl := range []string{"general", "blum"} {
+		k, err := hvC16Key(fl, 2048)
+		if err != nil {
+			sampleError("paillier-floor", err)
+			continue
+		}
+		if b, err := serde.MarshalCBOR(k.pk); err == nil {
+			out = append(out, floorStream{"paillier-publickey", k.name() + " legacy public key", b})
+		}
+		if b, err := serde.MarshalCBOR(k.sk); err == nil {
+			out = append(out, floorStream{"paillier-secretkey", k.name() + " legacy secret key", b})
+		}
+	}
+	return out
 }
